@@ -62,6 +62,9 @@ ValueClauses(c) ==
       /\ Ck("batch.model_loss_is_own_prediction", \A i \in 1..m : c.obs[i].lmodel_pred = c.batch_out[i])
 Explained(c) == /\ Ck("batch.shape", ShapeOK(c))
                 /\ Ck("batch.values_keyed_by_features", ValuesKeyed(c))
+                \* features the model reads but the explainer is not asked to explain are in no coalition's complement:
+                \* every model input of an observation's chain carries the observation's own value of them
+                /\ Ck("batch.unexplained_features_untouched", c.hidden_ok)
                 /\ (ShapeOK(c) /\ ValuesKeyed(c)) => ValueClauses(c)
 
 Scheduled(c) == c.force \/ (c.seen_after % Tr.interval = 0)
